@@ -44,7 +44,7 @@ enum {
     /* benign */
     OP_UNK_NONCRIT, OP_PATHLEN_TIGHT, OP_BOGUS_CRL, OP_CRL_OTHER, OP_GENTIME, OP_PSS, OP_SHA384, OP_SHA512, OP_NO_AKI_SKI,
     /* recorded only */
-    OP_KU_ABSENT, OP_AKI_MISMATCH, OP_EKU_CRIT_OTHER, OP_EXPIRED_ANCHOR, OP_CRL_UNAUTH, OP_LINGER, OP_ISSUER_DN_TYPE, OP_WEAK_LEAF512,
+    OP_KU_ABSENT, OP_AKI_MISMATCH, OP_EKU_CRIT_OTHER, OP_EXPIRED_ANCHOR, OP_CRL_UNAUTH, OP_LINGER, OP_ISSUER_DN_TYPE, OP_WEAK_LEAF512, OP_SIG_ENVELOPE,
     OP_N
 };
 static const struct { const char *name; int cls, target; } OPS[OP_N] = {
@@ -66,6 +66,7 @@ static const struct { const char *name; int cls, target; } OPS[OP_N] = {
     [OP_KU_ABSENT] = { "ku-absent-on-ca", CL_RECORD, T_ISSUER }, [OP_AKI_MISMATCH] = { "aki-mismatch", CL_RECORD, T_SUBJ }, [OP_EKU_CRIT_OTHER] = { "eku-critical-not-tls", CL_RECORD, T_LEAF },
     [OP_EXPIRED_ANCHOR] = { "expired-anchor", CL_RECORD, T_ISSUER }, [OP_CRL_UNAUTH] = { "crl-not-authenticated-by-app", CL_RECORD, T_SUBJ }, [OP_LINGER] = { "expired-within-24h", CL_RECORD, T_SUBJ },
     [OP_ISSUER_DN_TYPE] = { "issuer-dn-other-string-type", CL_RECORD, T_SUBJ }, [OP_WEAK_LEAF512] = { "leaf-rsa-512", CL_RECORD, T_LEAF },
+    [OP_SIG_ENVELOPE] = { "ecdsa-sig-der-length-damaged", CL_RECORD, T_SUBJ },
 };
 static int op_by_name(const char *s) { for (int i = 0; i < OP_N; i++) if (!strcmp(OPS[i].name, s)) return i; return -1; }
 
@@ -127,6 +128,7 @@ static int op_applicable(const cdesc *d, int op, int p)
     case OP_WEAK_LEAF512: return d->kt[p] == CG_K_RSA2048;
     case OP_REVOKED: case OP_BOGUS_CRL: case OP_CRL_OTHER: case OP_CRL_UNAUTH: return crl_capable(ikt);
     case OP_SIG_COPY_ISSUER: return p >= 2;
+    case OP_SIG_ENVELOPE: return cg_is_ec(ikt);
     case OP_EXPIRED_ANCHOR: return p == 0;
     }
     return 1;
@@ -154,7 +156,8 @@ static int gt_alg_enabled(int a) { return a == CG_RSA_SHA256 || a == CG_RSA_SHA3
 static int gt_sig_genuine(const node *n)      /* signature bytes are a real signature by spec.signer over this TBS under the (single) declared algorithm */
 {
     const cg_spec *s = &n->spec; int alg = s->sigalg ? s->sigalg : cg_sig_default(s->signer);
-    if (s->sigmode != CG_SM_GOOD) return 0;
+    /* CG_SM_ENVELOPE leaves (r,s) - the signature proper - intact and only damages its DER wrapping: still the issuer's signature (leniency granted, recorded) */
+    if (s->sigmode != CG_SM_GOOD && s->sigmode != CG_SM_ENVELOPE) return 0;
     if (s->outer_sigalg && s->outer_sigalg != alg) return 0;
     if (s->sign_alg && s->sign_alg != alg) {
         /* declared OID names another public-key family but the same digest and a deterministic-padding scheme: the bytes ARE a signature of this TBS by
@@ -218,6 +221,7 @@ static void apply_op(const cdesc *d, int op, int p)
     case OP_SIG_COPY_ANCHOR_SAMEDN: s->sigmode = CG_SM_OVERRIDE; break;
     case OP_SIG_COPY_ISSUER: s->sigmode = CG_SM_OVERRIDE; rname(cn, sizeof cn, "Phantom CA"); set_cn(&s->issuer, cn); break;
     case OP_SIG_EMPTY: s->sigmode = CG_SM_EMPTY; break;
+    case OP_SIG_ENVELOPE: s->sigmode = CG_SM_ENVELOPE; break;
     case OP_SIG_ALG_OUTER: s->sigalg = dalg; s->outer_sigalg = alt_hash(dalg); break;
     case OP_SIG_ALG_WRONG: s->sigalg = other_family(dalg); s->sign_alg = dalg; break;
     case OP_SIG_HASH_SWAP: s->sigalg = dalg; s->sign_alg = alt_hash(dalg); break;
@@ -491,12 +495,13 @@ static void run_case(const cdesc *d)
     if (ref && !success && !canonical) { vf_statf(1, "strict:%s", primary(d)); }          /* valid by the reference but non-canonical: library stricter, recorded */
     if (ref && success && !canonical) vf_statf(1, "noncanonical-accepted:%s", primary(d));
     if (record_only) vf_statf(1, "record:%s:%s", primary(d), success ? "accepted" : "rejected");
-    if (success && ref) for (int k = 0; k < 2; k++) { if (d->op[k] == OP_SIG_ALG_WRONG) vf_stat("lenient:signature-oid-family-ignored-same-digest", 1); if (d->op[k] == OP_LINGER) vf_stat("lenient:expired-within-one-day-linger", 1); }
+    if (success && ref) for (int k = 0; k < 2; k++) { if (d->op[k] == OP_SIG_ALG_WRONG) vf_stat("lenient:signature-oid-family-ignored-same-digest", 1); if (d->op[k] == OP_LINGER) vf_stat("lenient:expired-within-one-day-linger", 1); if (d->op[k] == OP_SIG_ENVELOPE) vf_stat("lenient:ecdsa-signature-with-wrong-outer-der-length-accepted", 1); }
     if (g_sample) vf_sample("%s -> ref=%s lib=%s", ct, ref ? "path" : "no-path", success ? "success" : "rejected");
 
     char kp[MAXL + 1]; for (int i = 0; i < d->L; i++) kp[i] = kt_ch(d->kt[i]); kp[d->L] = 0;
     vf_distinct("%s|%d|%s@%d|%s@%d|%s|%d|%d|%d", kp, d->L, OPS[d->op[0]].name, d->pos[0], OPS[d->op[1]].name, d->pos[1], ANC[d->anc], d->apl, d->ord, d->root_presented);
     if (vf_case) fprintf(stderr, "CASE %s\n  %s\n  ref=%d success=%d %s canonical=%d openssl=%d(%d)\n", ds, ct, ref, success, detail, canonical, ossl, oerr);
+    if (vf_case) for (int i = 0; i < NNODE; i++) if (N[i].made && N[i].spec.sigmode == CG_SM_FLIP) { char hx[1200]; vf_hex(hx, N[i].cert.der + N[i].cert.sig_off, N[i].cert.sig_len > 560 ? 560 : N[i].cert.sig_len); fprintf(stderr, "  %s: signature bit %d flipped (of %d bits); signature now %s\n", N[i].label, N[i].spec.flip_bit % (N[i].cert.sig_len * 8), N[i].cert.sig_len * 8, hx); }
     if (vf_case && vf_flag("--dump")) for (int i = 0; i < NNODE; i++) if (N[i].made) { char *pem = cg_pem("CERTIFICATE", N[i].cert.der, N[i].cert.len); fprintf(stderr, "# %s\n%s", N[i].label, pem); free(pem); }
 
     if (chain) psX509FreeCert(chain);
